@@ -897,6 +897,117 @@ pub fn m8(level: u8) -> Vec<Model> {
     out
 }
 
+/// M9: disequality-heavy search problems of medium size (n-queens, graph colouring, pigeonhole,
+/// all-different with a sum): many conflicts, learned nogoods with `!=` predicates over non-Boolean
+/// domains, enough of them for the learned-nogood database (deletion rounds, id reuse) and the
+/// restart policies to matter.
+pub fn m9(level: u8) -> Vec<Model> {
+    let v = View::id;
+    let mut out = vec![];
+    // n-queens as binary not-equals over offset views
+    let ns: Vec<usize> = if level >= 1 { vec![4, 5, 6] } else { vec![4, 5] };
+    for n in ns {
+        let vars = vec![VarDecl::interval(0, n as i32 - 1); n];
+        let mut cons = vec![];
+        for i in 0..n {
+            for j in i + 1..n {
+                let d = (j - i) as i32;
+                cons.push(Con::BinNe(v(i), v(j)));
+                cons.push(Con::BinNe(v(i), View::new(j, 1, d)));
+                cons.push(Con::BinNe(v(i), View::new(j, 1, -d)));
+            }
+        }
+        out.push(Model::new(vars.clone(), cons.clone()));
+        // the same with all-different rows and linear not-equals diagonals
+        let mut cons2 = vec![Con::AllDiff((0..n).map(v).collect())];
+        for i in 0..n {
+            for j in i + 1..n {
+                let d = (j - i) as i32;
+                cons2.push(Con::LinNe(vec![v(i), View::new(j, -1, 0)], d));
+                cons2.push(Con::LinNe(vec![v(i), View::new(j, -1, 0)], -d));
+            }
+        }
+        out.push(Model::new(vars, cons2));
+    }
+    // graph colouring
+    let graphs: Vec<(usize, Vec<(usize, usize)>, i32)> = vec![
+        (5, vec![(0, 1), (1, 2), (2, 3), (3, 4), (4, 0)], 3),                                  // C5, 3 colours
+        (4, vec![(0, 1), (0, 2), (0, 3), (1, 2), (1, 3), (2, 3)], 3),                          // K4, 3 colours: unsat
+        (6, vec![(0, 1), (1, 2), (2, 0), (3, 4), (4, 5), (5, 3), (0, 3), (1, 4), (2, 5)], 3), // prism
+        (5, vec![(0, 1), (0, 2), (0, 3), (0, 4), (1, 2), (2, 3), (3, 4), (4, 1)], 3),          // wheel W4, 3 colours
+        (5, vec![(0, 1), (0, 2), (0, 3), (0, 4), (1, 2), (2, 3), (3, 4), (4, 1)], 4),          // wheel W4, 4 colours
+    ];
+    for (n, edges, k) in graphs {
+        if level == 0 && n == 6 {
+            continue;
+        }
+        let vars = vec![VarDecl::interval(0, k - 1); n];
+        let cons: Vec<Con> = edges.iter().map(|(a, b)| Con::BinNe(v(*a), v(*b))).collect();
+        out.push(Model::new(vars, cons));
+    }
+    // pigeonhole: 4 pigeons, 3 holes (unsat), as binary not-equals
+    {
+        let vars = vec![VarDecl::interval(0, 2); 4];
+        let mut cons = vec![];
+        for i in 0..4 {
+            for j in i + 1..4 {
+                cons.push(Con::BinNe(v(i), v(j)));
+            }
+        }
+        out.push(Model::new(vars, cons));
+    }
+    // all-different with sums and holes in the domains
+    out.push(Model::new(
+        vec![VarDecl::interval(0, 4), VarDecl::from_values(&[0, 2, 3, 5]), VarDecl::interval(1, 4), VarDecl::from_values(&[-1, 1, 2, 4])],
+        vec![
+            Con::AllDiff((0..4).map(v).collect()),
+            Con::LinEq(vec![v(0), v(1), v(2), v(3)], 8),
+            Con::LinNe(vec![v(0), View::new(3, -1, 0)], 1),
+        ],
+    ));
+    // clause-dense models: 6 variables over 0..3 and 20 clauses of 3 predicates each; the clauses of
+    // model (a, b) are the elements a, a+b, a+2b, ... (mod 96^3) of the product space of clauses
+    // (3 x (variable, value, kind)) in mixed-radix order
+    let params: Vec<(u64, u64)> = if level >= 1 {
+        (0..40).map(|i| (7 + 31 * i, 100_003 + 2 * 7919 * i)).collect()
+    } else {
+        (0..6).map(|i| (7 + 31 * i, 100_003 + 2 * 7919 * i)).collect()
+    };
+    for (a, b) in params {
+        let space = 96u64 * 96 * 96;
+        let mut cons = vec![];
+        for j in 0..20u64 {
+            let mut x = (a + j * b) % space;
+            let mut ps = vec![];
+            for _ in 0..3 {
+                let d = x % 96;
+                x /= 96;
+                let var = (d % 6) as usize;
+                let val = ((d / 6) % 4) as i32;
+                let kind = match d / 24 {
+                    0 => PredKind::Eq,
+                    1 => PredKind::Ne,
+                    2 => PredKind::Ge,
+                    _ => PredKind::Le,
+                };
+                ps.push(Pred::new(var, kind, val));
+            }
+            cons.push(Con::PredClause(ps));
+        }
+        out.push(Model::new(vec![VarDecl::interval(0, 3); 6], cons));
+    }
+    out.push(Model::new(
+        vec![VarDecl::interval(0, 3), VarDecl::interval(0, 3), VarDecl::interval(0, 3), VarDecl::interval(0, 3), VarDecl::interval(0, 1)],
+        vec![
+            Con::AllDiff(vec![v(0), v(1), v(2), v(3)]),
+            Con::LinLe(vec![v(0), v(1), View::new(2, -1, 0)], 1),
+            Con::PredClause(vec![Pred::new(0, PredKind::Ne, 0), Pred::new(3, PredKind::Ne, 3), Pred::new(4, PredKind::Ge, 1)]),
+            Con::PredClause(vec![Pred::new(1, PredKind::Eq, 1), Pred::new(2, PredKind::Eq, 1), Pred::new(4, PredKind::Le, 0)]),
+        ],
+    ));
+    out
+}
+
 /// Is the model non-trivial: neither every assignment is a solution nor none.
 pub fn nontrivial(model: &Model, num_solutions: usize) -> bool {
     num_solutions > 0 && (num_solutions as u64) < model.space_size()
